@@ -48,6 +48,7 @@ FILLERS = {
     "\"aé\"": '"a\u00e9bcd"',
     "Pa() AS MyType": "Pa() AS MyType", "Pr AS MyType": "Pr AS MyType", "Pi() AS INTEGER": "Pi() AS INTEGER", "Ps$()": "Ps$()",
     "Pn AS LONG": "Pn AS LONG", "Pu AS Undef": "Pu AS Undef", "Pq%()": "Pq%()",
+    "Qf": "Qf", "Qf%": "Qf%", "Qf!": "Qf!", "Qg": "Qg", "Qg$": "Qg$",
     "QQ": "QQ", "A.B$": "A.B$", "Rec.X%": "Rec.X%", "Undef.X$": "Undef.X$", "Rec.S$": "Rec.S$", "&O8": "&O8", "&o17": "&o17", "2#": "2#",
     "": "", " ": " ", ":": ":", "'": "'", ",": ",", ";": ";", "=": "=", "1 TO 2": "1 TO 2", "-": "-", "- -1": "- -1", "(N%": "(N%", "N%)": "N%)",
 }
@@ -84,6 +85,8 @@ TEMPLATES = {
 }
 DECL_TEMPLATES = {
     # declarations go after the main module
+    "function-assign": ["FUNCTION Qf% (Pz%)", "  {1} = {2}", "  {1} = 2", "  Pz% = {1}", "END FUNCTION"],
+    "function-assign-s": ["FUNCTION Qg$ (Pz%)", "  {1} = {2}", '  {1} = {1} + "x"', "END FUNCTION"],
     "sub-decl": ["SUB {1} ({2})", "END SUB"], "function-decl": ["FUNCTION {1} ({2})", "END FUNCTION"], "declare": ["DECLARE SUB {1} ({2})"],
     "type-decl": ["TYPE {1}", "  {2} AS INTEGER", "END TYPE"], "type-two": ["TYPE Tq2", "  {1} AS INTEGER", "  {2} AS STRING * 2", "END TYPE"], "type-member": ["TYPE Tq", "  Q AS {1}", "END TYPE"],
 }
@@ -101,7 +104,7 @@ NATURAL = {
     "redim-as": ("Qq", "Integer"), "redim-shared": ("Qq", "1"), "dim-shared-arr": ("Qq", "1"), "dim-arr-as": ("Qq", "Integer"), "dim-two": ("Qq", "Pq%"),
     "dim-to": ("1", "8"), "const-two": ("Qq", "Pq%"), "print-tab": ("1", "1"), "while-wend-var": ("0", ""), "if-else-line": ("1", "Cls"),
     "on-goto": ("1", "MyLabel"), "mid-stmt": ("S$", '"s"'), "swap": ("N%", "N%"),
-    "sub-decl": ("Qq", "Pq%"), "function-decl": ("Qq", "Pq%"), "declare": ("Qq", "Pq%"), "type-decl": ("Qq", "X"), "type-two": ("Qq", "X"),
+    "function-assign": ("Qf", "1"), "function-assign-s": ("Qg", '"s"'), "sub-decl": ("Qq", "Pq%"), "function-decl": ("Qq", "Pq%"), "declare": ("Qq", "Pq%"), "type-decl": ("Qq", "X"), "type-two": ("Qq", "X"),
 }
 
 
